@@ -2,7 +2,7 @@
    Only pinned statements, `exact`, Examples by vm_compute, and Print Assumptions. *)
 From Coq Require Import String List NArith ZArith PArith Bool FMapPositive.
 From Sylt Require Import Syntax.Resolved Types.TyGraph Types.Tc Types.Ctx Types.TcInv Types.Reject Types.Mismatch
-  Types.CopyInst Types.Calls Types.CallsDecl Types.BlobFields Types.FieldAssign Types.TwoDecls Types.ForwardDecl Types.DeclOrder Types.UnionCons Types.Complete1 Types.TupleArith.
+  Types.CopyInst Types.Calls Types.CallsDecl Types.BlobFields Types.FieldAssign Types.TwoDecls Types.ForwardDecl Types.DeclOrder Types.UnionCons Types.Complete1 Types.TupleArith Types.ConMono.
 Import ListNotations.
 Local Open Scope string_scope.
 
@@ -326,6 +326,26 @@ Theorem C03_union_keeps_constraints : forall a b s u s' c,
   wf s -> union a b s = Ok (u, s') -> has_con s a c \/ has_con s b c -> has_con s' a c /\ has_con s' b c.
 Proof. exact UnionCons.union_keeps_constraints. Qed.
 
+(* the same for a whole unification: a successful `unify` (fn unify, with all the nested sub_unify, set_type, union and
+   re-checks it performs) never drops a constraint -- every constraint recorded on any class before is recorded on that
+   class afterwards -- and, a and b being one class then, that class has the constraints of both.  Also for sub_unify
+   with a `seen` set, and for the constraint check itself. *)
+Theorem C03_unify_keeps_constraints : forall g sp a b s r s',
+  wf s -> unify (gfix g) sp a b s = Ok (r, s') -> forall i c, has_con s i c -> has_con s' i c.
+Proof. exact ConMono.unify_keeps_constraints. Qed.
+
+Theorem C03_unify_merges_constraints : forall g sp a b s r s' c,
+  wf s -> unify (gfix g) sp a b s = Ok (r, s') -> has_con s a c \/ has_con s b c -> has_con s' a c /\ has_con s' b c.
+Proof. exact ConMono.unify_merges_constraints. Qed.
+
+Theorem C03_sub_unify_keeps_constraints : forall g sp a b seen s r s',
+  wf s -> seen_ok seen s -> g_unify (gfix g) sp a b seen s = Ok (r, s') -> forall i c, has_con s i c -> has_con s' i c.
+Proof. exact ConMono.sub_unify_keeps_constraints. Qed.
+
+Theorem C03_check_keeps_constraints : forall g sp a s u s',
+  wf s -> g_check (gfix g) sp a s = Ok (u, s') -> forall i c, has_con s i c -> has_con s' i c.
+Proof. exact ConMono.check_keeps_constraints. Qed.
+
 Example C03_has_con_def : forall s i c,
   has_con s i c = (exists r n, rep s i = Some r /\ lk s r = Some n /\ In c (ncons n)).
 Proof. reflexivity. Qed.
@@ -645,6 +665,10 @@ Print Assumptions C03_tuple_arith_componentwise.
 Print Assumptions C03_tuple_arith_nested.
 Print Assumptions C03_tuple_arith_ok.
 Print Assumptions C03_union_keeps_constraints.
+Print Assumptions C03_unify_keeps_constraints.
+Print Assumptions C03_unify_merges_constraints.
+Print Assumptions C03_sub_unify_keeps_constraints.
+Print Assumptions C03_check_keeps_constraints.
 Print Assumptions C03_forward_blob_mention.
 Print Assumptions C03_blob_mention_both_orders.
 Print Assumptions C03_forward_enum_mention.
